@@ -74,7 +74,10 @@ func (p *tailProcessor) Process(iqr *iqr.IQR) (*iqr.IQR, error) {
 		return nil, fmt.Errorf("tailProcessor.Process: failed to reverse records: %v", err)
 	}
 
-	return p.finalIqr, io.EOF
+	// The later commands change the IQR they get in place (eval, rename,
+	// head, ...), and after a Rewind() the result is handed out again by
+	// GetFinalResultIfExists(). So keep the result and give away copies.
+	return p.finalIqr.Copy(), io.EOF
 }
 
 func (p *tailProcessor) Rewind() {
@@ -87,7 +90,7 @@ func (p *tailProcessor) Cleanup() {
 
 func (p *tailProcessor) GetFinalResultIfExists() (*iqr.IQR, bool) {
 	if p.eof {
-		return p.finalIqr, true
+		return p.finalIqr.Copy(), true
 	}
 	return nil, false
 }
